@@ -551,6 +551,12 @@ class Tensor:
     def chunk(self, chunks, dim=0):
         return chunk(self, chunks, dim)
 
+    def split(self, size, dim=0):
+        return split(self, size, dim)
+
+    def logaddexp(self, o):
+        return logaddexp(self, o)
+
     def unique(self, **kw):
         return unique(self, **kw)
 
@@ -1423,6 +1429,11 @@ def _fmod(a, b):
 def fmod(x, y):
     x = x if isinstance(x, Tensor) else tensor(x)
     return x._bin(y, lambda p, q: _map2(_fmod, p, q), force_float=True)
+
+
+def logaddexp(x, y, out=None):
+    x = x if isinstance(x, Tensor) else tensor(x)
+    return _write_out((x.exp() + (y.exp() if isinstance(y, Tensor) else tensor(y).exp())).log(), out)
 
 
 def addmv(inp, m, v, beta=1, alpha=1, out=None):
